@@ -4,6 +4,8 @@ import (
 	"bytes"
 	"encoding/json"
 	"fmt"
+	"net"
+	"net/http"
 	"os"
 	"path/filepath"
 	"sort"
@@ -64,15 +66,31 @@ func generate(b *xmlBatch, dir string, tops []string) (map[string]*genOutcome, e
 		}
 	}
 	out := map[string]*genOutcome{}
+	runDir, base := dir, ""
+	if b.Remote {
+		// the tree is published by a web server on the loopback interface and the generator is given addresses
+		ln, err := net.Listen("tcp4", "127.0.0.1:0")
+		if err != nil {
+			return nil, err
+		}
+		srv := &http.Server{Handler: http.FileServer(http.Dir(dir))}
+		go func() { _ = srv.Serve(ln) }()
+		defer srv.Close()
+		base = "http://" + ln.Addr().String() + "/"
+		runDir = filepath.Join(dir, "_out")
+		if err := os.MkdirAll(runDir, 0o755); err != nil {
+			return nil, err
+		}
+	}
 	for _, top := range tops {
 		o := &genOutcome{Top: top, PkgName: pkgNameOf(top)}
 		out[top] = o
-		txt, err := runCmd(dir, 2*time.Minute, imp, top)
+		txt, err := runCmd(runDir, 2*time.Minute, imp, base+top)
 		if err != nil {
 			o.GenErr = strings.TrimSpace(txt) + " (" + err.Error() + ")"
 			continue
 		}
-		o.Dir = filepath.Join(dir, o.PkgName)
+		o.Dir = filepath.Join(runDir, o.PkgName)
 		o.Files = map[string][]byte{}
 		entries, err := os.ReadDir(o.Dir)
 		if err != nil {
